@@ -207,8 +207,9 @@ Section MidSound.
      at least MFLIMIT bytes before the end of the input *)
   Definition end_inv (ss : list seq) (anchor : Z) : Prop :=
     match rev ss with [] => True | q :: _ => anchor <= matchlimit /\ anchor - s_mlen q <= mflimit end.
-  Definition out_ok (rout : list Z) (anchor : Z) : Prop :=
-    exists ss, rev rout = concat (map encode_seq ss) /\ seqs_valid vrd lo s0 ss /\ seqs_end s0 ss = anchor /\ end_inv ss anchor.
+  Definition out_ss (rout : list Z) (anchor : Z) (ss : list seq) : Prop :=
+    rev rout = concat (map encode_seq ss) /\ seqs_valid vrd lo s0 ss /\ seqs_end s0 ss = anchor /\ end_inv ss anchor.
+  Definition out_ok (rout : list Z) (anchor : Z) : Prop := exists ss, out_ss rout anchor ss.
 
   Definition RSpec (r : mres) : Prop :=
     match r with
@@ -228,18 +229,19 @@ Section MidSound.
   Qed.
 
   (* appending one verified sequence *)
-  Lemma out_ok_snoc rout anchor ip ml dist op limit oend :
-    out_ok rout anchor -> anchor <= ip -> match_ok vrd lo ip dist ml ->
+  Lemma out_ss_snoc rout anchor ss ip ml dist op limit oend :
+    out_ss rout anchor ss -> anchor <= ip -> match_ok vrd lo ip dist ml ->
     ip <= mflimit -> ip + ml <= matchlimit ->
     let e := encodeSequence vrd ip anchor op ml dist limit oend in
-    e_ret e = 0 -> out_ok (rev_append (e_bytes e) rout) (ip + ml).
+    e_ret e = 0 ->
+    out_ss (rev_append (e_bytes e) rout) (ip + ml)
+           (ss ++ [{| s_lits := src_bytes vrd (Z.to_nat (ip - anchor)) anchor; s_off := dist; s_mlen := ml |}]).
   Proof.
-    intros (ss & Hr & Hv & He & _) Hai Hm Hipm Himl e Hret.
+    intros (Hr & Hv & He & _) Hai Hm Hipm Himl e Hret.
     destruct Hm as (M1 & M2 & M3 & M4).
     pose proof (encodeSequence_encoding vrd ip anchor op ml dist limit oend Hai ltac:(unfold MINMATCH; lia) ltac:(lia)) as HE.
     cbv zeta in HE. specialize (HE Hret). destruct HE as (HE & _). fold e in HE.
     set (q := {| s_lits := src_bytes vrd (Z.to_nat (ip - anchor)) anchor; s_off := dist; s_mlen := ml |}) in *.
-    exists (ss ++ [q]).
     assert (Hl : s_lits q = seg vrd anchor ip).
     { subst q. cbn [s_lits]. rewrite src_bytes_seg by lia. f_equal. lia. }
     assert (Hll : Z.of_nat (length (s_lits q)) = ip - anchor).
@@ -252,6 +254,16 @@ Section MidSound.
       split; [exact Hl|]. subst q. cbn [s_off s_mlen]. repeat split; try lia. exact M4.
     - rewrite seqs_end_app, He, Hll. subst q. cbn [s_mlen]. lia.
     - unfold end_inv. rewrite rev_app_distr. cbn [rev app]. subst q. cbn [s_mlen]. lia.
+  Qed.
+
+  Lemma out_ok_snoc rout anchor ip ml dist op limit oend :
+    out_ok rout anchor -> anchor <= ip -> match_ok vrd lo ip dist ml ->
+    ip <= mflimit -> ip + ml <= matchlimit ->
+    let e := encodeSequence vrd ip anchor op ml dist limit oend in
+    e_ret e = 0 -> out_ok (rev_append (e_bytes e) rout) (ip + ml).
+  Proof.
+    intros (ss & Hss) Hai Hm Hipm Himl e Hret.
+    eexists. apply (out_ss_snoc rout anchor ss ip ml dist op limit oend Hss Hai Hm Hipm Himl Hret).
   Qed.
 
   (* ---- _lz4mid_last_literals ---- *)
